@@ -186,8 +186,18 @@ func (c *Conn) writeClose(ctx context.Context, code StatusCode, reason string) e
 
 	// Only a single close frame may ever be written, see RFC 6455 section 5.5.1.
 	if !atomic.CompareAndSwapInt32(&c.wroteClose, 0, 1) {
+		// The close frame is someone else's to write (the echo of the peer's close
+		// frame, or a Close racing with it). It may still be on its way out: whoever
+		// goes on to close the connection must not do so under it, or the peer gets
+		// no close frame at all. The wait is bounded by that write's own timeout.
+		select {
+		case <-c.closeFrameDone:
+		case <-c.closed:
+		case <-ctx.Done():
+		}
 		return net.ErrClosed
 	}
+	defer close(c.closeFrameDone)
 
 	ctx, cancel := context.WithTimeout(ctx, time.Second*5)
 	defer cancel()
